@@ -6,6 +6,7 @@ import (
 	"fmt"
 	"reflect"
 	"sort"
+	"unsafe"
 
 	"verif/shim/sched"
 )
@@ -27,6 +28,7 @@ func Go(name string, f func()) {
 type Mutex struct {
 	locked bool
 	owner  int
+	vc     sched.VC
 }
 
 func (m *Mutex) Lock() {
@@ -36,6 +38,7 @@ func (m *Mutex) Lock() {
 	}
 	g.Yield("Mutex.Lock", func() bool { return !m.locked })
 	m.locked, m.owner = true, g.Cur()
+	g.AcquireVC(m.vc)
 }
 
 func (m *Mutex) TryLock() bool {
@@ -43,6 +46,7 @@ func (m *Mutex) TryLock() bool {
 		return false
 	}
 	m.locked = true
+	s().AcquireVC(m.vc)
 	return true
 }
 
@@ -56,6 +60,7 @@ func (m *Mutex) Unlock() {
 	}
 	// no scheduling point after the release: the thread's next visible operation has one in front of it
 	g.Yield("Mutex.Unlock", nil)
+	g.ReleaseStore(&m.vc)
 	m.locked = false
 }
 
@@ -63,6 +68,7 @@ type RWMutex struct {
 	writer         bool
 	readers        int
 	waitingWriters int
+	vc, rvc        sched.VC // released by writers / by readers
 }
 
 func (m *RWMutex) Lock() {
@@ -74,6 +80,8 @@ func (m *RWMutex) Lock() {
 	g.Yield("RWMutex.Lock", func() bool { return !m.writer && m.readers == 0 })
 	m.waitingWriters--
 	m.writer = true
+	g.AcquireVC(m.vc)
+	g.AcquireVC(m.rvc)
 }
 
 func (m *RWMutex) Unlock() {
@@ -85,6 +93,7 @@ func (m *RWMutex) Unlock() {
 		panic("sync: Unlock of unlocked RWMutex")
 	}
 	g.Yield("RWMutex.Unlock", nil)
+	g.ReleaseStore(&m.vc)
 	m.writer = false
 }
 
@@ -96,6 +105,7 @@ func (m *RWMutex) RLock() {
 	// Go's RWMutex: a blocked Lock call excludes new readers
 	g.Yield("RWMutex.RLock", func() bool { return !m.writer && m.waitingWriters == 0 })
 	m.readers++
+	g.AcquireVC(m.vc)
 }
 
 func (m *RWMutex) RUnlock() {
@@ -107,32 +117,48 @@ func (m *RWMutex) RUnlock() {
 		panic("sync: RUnlock of unlocked RWMutex")
 	}
 	g.Yield("RWMutex.RUnlock", nil)
+	g.ReleaseInto(&m.rvc)
 	m.readers--
 }
 
 // WaitGroup / Once (small, for completeness)
-type WaitGroup struct{ n int }
+type WaitGroup struct {
+	n  int
+	vc sched.VC
+}
 
 func (w *WaitGroup) Add(d int) { w.n += d }
 func (w *WaitGroup) Done() {
-	w.n--
 	if !s().Dead() {
 		s().Yield("WaitGroup.Done", nil)
+		s().ReleaseInto(&w.vc)
 	}
+	w.n--
 }
 func (w *WaitGroup) Wait() {
 	if s().Dead() {
 		return
 	}
 	s().Yield("WaitGroup.Wait", func() bool { return w.n <= 0 })
+	s().AcquireVC(w.vc)
 }
 
-type Once struct{ done bool }
+type Once struct {
+	done bool
+	vc   sched.VC
+}
 
 func (o *Once) Do(f func()) {
 	if !o.done {
 		o.done = true
 		f()
+		if !s().Dead() {
+			s().ReleaseStore(&o.vc)
+		}
+		return
+	}
+	if !s().Dead() {
+		s().AcquireVC(o.vc)
 	}
 }
 
@@ -142,6 +168,9 @@ func (o *Once) Do(f func()) {
 type chanState struct {
 	cap    int
 	buf    []any
+	bufVC  []sched.VC // clock of the send of each buffered value
+	freed  []sched.VC // clocks of receives that freed a buffer slot (k-th receive happens before the (k+cap)-th send completes)
+	closeV sched.VC
 	closed bool
 	// rendez-vous (cap == 0): parked senders with their values, parked receivers with their slots
 	sendq []*sender
@@ -153,13 +182,17 @@ type sender struct {
 	done bool
 	sel  *Sel
 	idx  int
+	vc   sched.VC // clock of the sender when it started the send
+	ack  sched.VC // clock of the receive that completed it
 }
 type receiver struct {
-	v    any
-	ok   bool
-	done bool
-	sel  *Sel
-	idx  int
+	v     any
+	ok    bool
+	done  bool
+	sel   *Sel
+	idx   int
+	vc    sched.VC // clock of the receiver when it started the receive
+	msgVC sched.VC // clock that came with the value
 }
 
 var chans = map[uintptr]*chanState{}
@@ -223,7 +256,7 @@ func (st *chanState) canRecv() bool {
 }
 
 // doSend performs an enabled send.
-func (st *chanState) doSend(v any) {
+func (st *chanState) doSend(v any, vc sched.VC) {
 	s().Tracef("doSend %s %v (buf %d, recvq %d)", st.name, v, len(st.buf), len(st.recvq))
 	if st.closed {
 		panic("send on closed channel")
@@ -231,6 +264,10 @@ func (st *chanState) doSend(v any) {
 	for _, r := range st.recvq {
 		if r.avail() {
 			r.v, r.ok, r.done = v, true, true
+			r.msgVC = vc
+			if st.cap == 0 {
+				s().AcquireVC(r.vc) // unbuffered: the receive happens before the send completes
+			}
 			if r.sel != nil {
 				r.sel.fired = r.idx
 			}
@@ -239,40 +276,58 @@ func (st *chanState) doSend(v any) {
 		}
 	}
 	st.buf = append(st.buf, v)
+	st.bufVC = append(st.bufVC, vc)
+	if len(st.freed) > 0 {
+		s().AcquireVC(st.freed[0])
+		st.freed = st.freed[1:]
+	}
 }
 
 // doRecv performs an enabled receive.
-func (st *chanState) doRecv() (any, bool) {
+func (st *chanState) doRecv(vc sched.VC) (any, bool, sched.VC) {
 	s().Tracef("doRecv %s (buf %d, sendq %d)", st.name, len(st.buf), len(st.sendq))
 	if len(st.buf) > 0 {
 		v := st.buf[0]
 		st.buf = st.buf[1:]
+		var mvc sched.VC
+		if len(st.bufVC) > 0 {
+			mvc = st.bufVC[0]
+			st.bufVC = st.bufVC[1:]
+		}
 		// a parked sender (buffer was full) can now complete
+		moved := false
 		for _, sd := range st.sendq {
 			if sd.avail() {
 				st.buf = append(st.buf, sd.v)
+				st.bufVC = append(st.bufVC, sd.vc)
 				sd.done = true
+				sd.ack = vc // this receive freed the slot the parked send completes into
 				if sd.sel != nil {
 					sd.sel.fired = sd.idx
 				}
 				st.sendq = removeSend(st.sendq, sd)
+				moved = true
 				break
 			}
 		}
-		return v, true
+		if !moved && vc != nil {
+			st.freed = append(st.freed, vc)
+		}
+		return v, true, mvc
 	}
 	for _, sd := range st.sendq {
 		if sd.avail() {
 			sd.done = true
+			sd.ack = vc
 			if sd.sel != nil {
 				sd.sel.fired = sd.idx
 			}
 			st.sendq = removeSend(st.sendq, sd)
-			return sd.v, true
+			return sd.v, true, sd.vc
 		}
 	}
 	if st.closed {
-		return nil, false
+		return nil, false, st.closeV
 	}
 	panic("vsync: doRecv on a channel that is not ready")
 }
@@ -306,14 +361,15 @@ func Send[T any](ch chan<- T, v T) {
 		return
 	}
 	// park as a sender so that a receiver arriving later can complete the rendez-vous
-	me := &sender{v: v}
+	me := &sender{v: v, vc: g.Snapshot()}
 	st.sendq = append(st.sendq, me)
 	g.Yield("send "+st.name, func() bool { return me.done || st.canSendFor(me) })
 	if me.done {
+		g.AcquireVC(me.ack)
 		return
 	}
 	st.sendq = removeSend(st.sendq, me)
-	st.doSend(v)
+	st.doSend(v, me.vc)
 }
 
 // canSendFor: like canSend but ignoring the caller's own queue entry.
@@ -337,17 +393,19 @@ func Recv2[T any](ch <-chan T) (T, bool) {
 		g.Yield("recv on nil channel", func() bool { return false })
 		return zero, false
 	}
-	me := &receiver{}
+	me := &receiver{vc: g.Snapshot()}
 	st.recvq = append(st.recvq, me)
 	g.Yield("recv "+st.name, func() bool { return me.done || st.canRecvFor() })
 	if me.done {
+		g.AcquireVC(me.msgVC)
 		if me.v == nil {
 			return zero, me.ok
 		}
 		return me.v.(T), me.ok
 	}
 	st.recvq = removeRecv(st.recvq, me)
-	v, ok := st.doRecv()
+	v, ok, mvc := st.doRecv(me.vc)
+	g.AcquireVC(mvc)
 	if !ok || v == nil {
 		return zero, ok
 	}
@@ -373,6 +431,7 @@ func Close[T any](ch chan T) {
 	if st.closed {
 		panic("close of closed channel")
 	}
+	st.closeV = g.Snapshot()
 	st.closed = true
 }
 
@@ -440,16 +499,17 @@ func (sl *Sel) Wait(hasDefault bool) int {
 		panicKilled()
 	}
 	// park on every channel so that partners arriving later can complete a rendez-vous with us
+	snap := g.Snapshot()
 	for i := range sl.cases {
 		c := &sl.cases[i]
 		if c.st == nil {
 			continue
 		}
 		if c.send {
-			c.sd = &sender{v: c.v, sel: sl, idx: i}
+			c.sd = &sender{v: c.v, sel: sl, idx: i, vc: snap}
 			c.st.sendq = append(c.st.sendq, c.sd)
 		} else {
-			c.recv = &receiver{sel: sl, idx: i}
+			c.recv = &receiver{sel: sl, idx: i, vc: snap}
 			c.st.recvq = append(c.st.recvq, c.recv)
 		}
 	}
@@ -487,6 +547,11 @@ func (sl *Sel) Wait(hasDefault bool) int {
 	if sl.fired >= 0 {
 		// a partner completed one of our cases while we were parked
 		unpark()
+		if c := &sl.cases[sl.fired]; c.send {
+			g.AcquireVC(c.sd.ack)
+		} else {
+			g.AcquireVC(c.recv.msgVC)
+		}
 		return sl.fired
 	}
 	r := ready()
@@ -502,10 +567,11 @@ func (sl *Sel) Wait(hasDefault bool) int {
 	unpark()
 	c := &sl.cases[i]
 	if c.send {
-		c.st.doSend(c.v)
+		c.st.doSend(c.v, snap)
 	} else {
-		v, ok := c.st.doRecv()
+		v, ok, mvc := c.st.doRecv(snap)
 		c.recv.v, c.recv.ok = v, ok
+		g.AcquireVC(mvc)
 	}
 	sl.fired = i
 	return i
@@ -570,7 +636,7 @@ func TimerSend[T any](ch chan T, v T) {
 		return
 	}
 	if st.canSend() {
-		st.doSend(v)
+		st.doSend(v, s().Snapshot())
 	}
 }
 
@@ -578,6 +644,41 @@ func TimerSend[T any](ch chan T, v T) {
 func CloseQuiet[T any](ch chan T) {
 	st := stateOf(ch)
 	if st != nil {
+		if !st.closed {
+			st.closeV = s().Snapshot()
+		}
 		st.closed = true
 	}
+}
+
+// ---- memory accesses (race detection) ----------------------------------------------------------------------------
+
+// R / W report a read / write of *p by the current thread and return p (the instrumenter rewrites x.f into (*R(&x.f, site))).
+func R[T any](p *T, site string) *T {
+	if g := sched.G; g != nil {
+		g.Access(unsafe.Pointer(p), false, site)
+	}
+	return p
+}
+
+func W[T any](p *T, site string) *T {
+	if g := sched.G; g != nil {
+		g.Access(unsafe.Pointer(p), true, site)
+	}
+	return p
+}
+
+// MR / MW report a read / write of the map m (any key) and return m.
+func MR[M ~map[K]V, K comparable, V any](m M, site string) M {
+	if g := sched.G; g != nil && m != nil {
+		g.Access(*(*unsafe.Pointer)(unsafe.Pointer(&m)), false, site)
+	}
+	return m
+}
+
+func MW[M ~map[K]V, K comparable, V any](m M, site string) M {
+	if g := sched.G; g != nil && m != nil {
+		g.Access(*(*unsafe.Pointer)(unsafe.Pointer(&m)), true, site)
+	}
+	return m
 }
